@@ -65,6 +65,21 @@ impl<TlsErr> TlsError<TlsErr, Infallible> {
         self matches TlsError::Tls(e) ==> r matches TlsError::Tls(e2) && e2 == e,
 //@end
 }
+//@extract file=actix-tls/src/accept/mod.rs item="fn max_concurrent_tls_connect" props=C17,C18 name=accept::max_concurrent_tls_connect
+//@spec
+    ensures
+        // the limit asked for is the limit stored (read by every worker thread when it creates its gate)   [C17,C18]
+        MAX_CONN.stored_in_call() == Some(num),
+//@end
+//@fn max_conn_counter_init props=C17,C18
+/// the initialiser of `thread_local! { static MAX_CONN_COUNTER: Counter = <expr> }` (accept/mod.rs; <expr> is the real
+/// text, extracted): a thread's handshake gate starts empty with the CONFIGURED capacity   [C17,C18]
+pub fn max_conn_counter_init() -> (r: Counter)
+    ensures r.capacity() == max_conn_configured(), r.count() == 0,
+{
+//@tls_init_expr file=actix-tls/src/accept/mod.rs name=MAX_CONN_COUNTER
+}
+//@end
 #[verifier::reject_recursive_types(IO)]
 pub struct TlsStream<IO>(pub tokio_openssl::SslStream<IO>);
 pub type InnerTls<IO> = tokio_openssl::SslStream<IO>;
